@@ -7,7 +7,7 @@ DRIVER = dev_ctl.DRIVER
 REQUIRED_THEOREMS = ["unsupported_never_answered", "unsupported_first_request_stalled", "unsupported_setup_establishes_handling", "handling_step"]
 RULE = dev_ctl.RULE
 ASSUMPTIONS = dev_ctl.ASSUMPTIONS
-PARTIAL = ""
+PARTIAL = dev_ctl.PARTIAL["C10"]
 
 
 def gen_cases(tier, rng):
